@@ -167,6 +167,37 @@ theorem tombstone_forever (s : State) (op : Op) (r : State × List (Addr × Int)
   intro v si'' _ hs2
   rw [h1] at hs2; cases hs2; exact h2
 
+/-- "Jailed permanently", for every history: from a state in which `a` is tombstoned, after any sequence of
+operations whatsoever `a` is still tombstoned, jailed until for ever, and an unjail request for it fails. -/
+theorem tombstone_forever_run (ops : List Op) (s s' : State) (a : Addr) (si : Sign)
+    (h : Inv s) (hr : run s ops = some s') (hsi : aget s.sign a = some si) (ht : si.tomb = true) :
+    (∃ si', aget s'.sign a = some si' ∧ si'.tomb = true ∧ si'.jailedUntil = forever) ∧
+    handle s' (.unjail a) = none := by
+  induction ops generalizing s si with
+  | nil =>
+    simp [run] at hr
+    subst hr
+    refine ⟨⟨si, hsi, ht, (h.sign.2 a si hsi ht).1⟩, ?_⟩
+    cases hh : handle s (.unjail a) with
+    | none => rfl
+    | some s1 =>
+      exfalso
+      have hs : (handle s (.unjail a)).isSome = true := by rw [hh]; rfl
+      obtain ⟨v, si2, _, h2, _, _, h5, _⟩ := (unjail_iff s a).1 hs
+      rw [hsi] at h2
+      cases h2
+      rw [ht] at h5
+      cases h5
+  | cons op rest ih =>
+    simp only [run] at hr
+    cases hstep : step s op with
+    | none => simp [hstep] at hr
+    | some r =>
+      rw [hstep] at hr
+      simp only [Option.bind_some] at hr
+      obtain ⟨⟨si', hsi', ht', _⟩, _⟩ := tombstone_forever s op r a si h hstep hsi ht
+      exact ih r.1 si' (step_inv s op r h hstep) hr hsi' ht'
+
 /-- A validator convicted of double signing is tombstoned, jailed, and force-unstaked. -/
 theorem doublesign_tombstones (s s' : State) (a : Addr) (ih et pw : Int) (v : Val) (h : Inv s)
     (hv : aget s.vals a = some v) (hage : s.time - et ≤ s.p.maxAge)
